@@ -1,7 +1,9 @@
 package main
 
 import (
+	"encoding/binary"
 	"fmt"
+	"math/bits"
 	"sort"
 	"strconv"
 	"strings"
@@ -614,9 +616,51 @@ func priorTypeOf(m *model.Model, db int, args []string, now int64) string {
 // emulator returned for the most recent DUMP of that key name (or by a payload no DUMP ever returned).
 func DumpOf(key string) string { return "\x00dump-of:" + key }
 
+// CorruptDumpOf: the last DUMP payload of the key with its type byte changed (string <-> list) and the checksum
+// recomputed: well-formed on the outside, undecodable inside. RESTORE must refuse it and change nothing.
+func CorruptDumpOf(key string) string { return "\x00dump-corrupt:" + key }
+
+func corruptPayload(p string) string {
+	b := []byte(p)
+	if len(b) < 14 {
+		return p + "x"
+	}
+	b = b[:len(b)-8]
+	if len(b)%2 == 0 {
+		// a type byte that names several types at once (or none that exists): no key can be that
+		b[1] = []byte{3, 5, 7, 9, 15, 255, 6, 10, 12, 16, 128}[len(b)/2%11]
+	} else {
+		// (a container body declared as a string would be a valid string payload: containers become other containers)
+		switch b[1] {
+		case 8:
+			b[1] = 2
+		default:
+			b[1] = 8
+		}
+	}
+	var c uint64
+	for _, x := range b {
+		c = bits.RotateLeft64(c, 10) ^ uint64(x)
+	}
+	sum := make([]byte, 8)
+	binary.BigEndian.PutUint64(sum, c)
+	return string(append(b, sum...))
+}
+
 func (d *diffEnv) substDumps(args []string) []string {
 	var out []string
 	for i, a := range args {
+		if strings.HasPrefix(a, "\x00dump-corrupt:") {
+			if out == nil {
+				out = append([]string{}, args...)
+			}
+			p, ok := d.dumps[a[len("\x00dump-corrupt:"):]]
+			if !ok {
+				p = "\x01\x01never-dumped"
+			}
+			out[i] = corruptPayload(p)
+			continue
+		}
 		if strings.HasPrefix(a, "\x00dump-of:") {
 			if out == nil {
 				out = append([]string{}, args...)
